@@ -96,3 +96,164 @@ def fp_cmp(op, a, b):
     """a, b FP terms; IEEE semantics (ordered comparisons false on NaN, != true on NaN)"""
     return {'eq': z3.fpEQ(a, b), 'ne': z3.Not(z3.fpEQ(a, b)), 'lt': z3.fpLT(a, b), 'le': z3.fpLEQ(a, b),
             'gt': z3.fpGT(a, b), 'ge': z3.fpGEQ(a, b)}[op]
+
+
+# ====================================================================================================== floating point
+RNE = z3.RNE()
+
+
+def FS(w): return z3.Float32() if w == 32 else z3.Float64()
+def WIDE(w): return z3.Float64() if w == 32 else z3.FPSort(15, 64)      # a sort in which x*2^e and x/2 are exact
+def fpv(b, w): return z3.fpBVToFP(b, FS(w))
+def SB(w): return z3.BitVecVal(1 << (w - 1), w)
+def fpc(v, w): return z3.FPVal(v, FS(w))
+
+
+def pow2_wide(e, w):
+    """2^e (e: signed BV of any width, assumed inside the wide sort's normal range) in WIDE(w), built from the exponent field"""
+    if w == 32:
+        ee = z3.SignExt(64 - e.size(), e) if e.size() < 64 else e
+        return z3.fpBVToFP((ee + 1023) << 52, z3.Float64())
+    ee = z3.Extract(14, 0, (z3.SignExt(32 - e.size(), e) if e.size() < 32 else z3.Extract(31, 0, e)) + 16383)
+    return z3.fpFP(z3.BitVecVal(0, 1), ee, z3.BitVecVal(0, 63))
+
+
+def is_int_valued(f):
+    return z3.And(z3.Not(z3.fpIsNaN(f)), z3.Not(z3.fpIsInf(f)), z3.fpRoundToIntegral(z3.RTZ(), f) == f)
+
+
+def RB(r, w):
+    """result -> bit pattern (BV)"""
+    from .symex import F
+    if isinstance(r, F): r = r.bits()
+    if isinstance(r, int): return z3.BitVecVal(r, w)
+    return r
+
+
+def RF(r, w):
+    """result -> FloatingPoint term; an F object that carries an FP term is used as is (no bit-pattern round trip)"""
+    from .symex import F
+    if isinstance(r, F):
+        return r.fp()
+    if isinstance(r, int): r = z3.BitVecVal(r, w)
+    return fpv(r, w)
+
+
+def fp_pred(op, w, a):
+    """a: BV bits -> BoolRef truth of the scalar predicate"""
+    x = fpv(a, w)
+    if op == 'isnan': return z3.fpIsNaN(x)
+    if op == 'isinf': return z3.fpIsInf(x)
+    if op == 'isfinite': return z3.And(z3.Not(z3.fpIsNaN(x)), z3.Not(z3.fpIsInf(x)))
+    flint = is_int_valued(x)
+    if op == 'is_flint': return flint
+    xw = z3.fpFPToFP(RNE, x, WIDE(w))
+    half = z3.fpMul(RNE, xw, z3.FPVal(0.5, WIDE(w)))       # exact in the wide sort
+    even = z3.And(flint, is_int_valued(half))
+    if op == 'is_even': return even
+    if op == 'is_odd': return z3.And(flint, z3.Not(even))
+    raise KeyError(op)
+
+
+def fp_spec(op, w, a, b=None, c=None):
+    """operands: BV bit patterns.  -> (pre, post) with post(result bits BV) -> BoolRef"""
+    S = FS(w); sb = SB(w); nsb = z3.BitVecVal((1 << (w - 1)) - 1, w)
+    x = fpv(a, w); y = fpv(b, w) if b is not None and b.size() == w else None; z = fpv(c, w) if c is not None else None
+    R = lambda r: RF(r, w)
+    B_ = lambda r: RB(r, w)
+    feq = lambda r, v: R(r) == v               # SMT-LIB equality on FloatingPoint: NaN = NaN, +0 != -0
+    if op in ('add', 'adds'): return T, lambda r: feq(r, z3.fpAdd(RNE, x, y))
+    if op == 'sub': return T, lambda r: feq(r, z3.fpSub(RNE, x, y))
+    if op in ('mul', 'muls'): return T, lambda r: feq(r, z3.fpMul(RNE, x, y))
+    if op == 'div': return T, lambda r: feq(r, z3.fpDiv(RNE, x, y))
+    if op == 'sqrt': return T, lambda r: feq(r, z3.fpSqrt(RNE, x))
+    if op == 'incr': return T, lambda r: feq(r, z3.fpAdd(RNE, x, fpc(1.0, w)))
+    if op == 'decr': return T, lambda r: feq(r, z3.fpSub(RNE, x, fpc(1.0, w)))
+    if op == 'neg': return T, lambda r: B_(r)  == a ^ sb
+    if op in ('abs', 'fabs'): return T, lambda r: B_(r)  == a & nsb
+    if op == 'copysign': return T, lambda r: B_(r)  == (a & nsb) | (b & sb)
+    if op == 'bitofsign': return T, lambda r: B_(r)  == a & sb
+    if op == 'and': return T, lambda r: B_(r)  == a & b
+    if op == 'or': return T, lambda r: B_(r)  == a | b
+    if op == 'xor': return T, lambda r: B_(r)  == a ^ b
+    if op == 'not': return T, lambda r: B_(r)  == ~a
+    if op == 'andnot': return T, lambda r: B_(r)  == a & ~b
+    if op in ('fma', 'fms', 'fnma', 'fnms'):
+        nx = z3.fpNeg(x); ny = z3.fpNeg(y); nz = z3.fpNeg(z)
+        p = z3.fpMul(RNE, x, y); np_ = [z3.fpNeg(p), z3.fpMul(RNE, nx, y), z3.fpMul(RNE, x, ny)]     # three spellings of -(x*y): identical IEEE values
+        # every spelling below denotes the same IEEE value as the first of its group (negation commutes exactly with mul; a-b = a+(-b));
+        # listing them lets the term simplifier recognise the kernel's own spelling, anything else falls to the FP solver
+        fused = {'fma': [z3.fpFMA(RNE, x, y, z)], 'fms': [z3.fpFMA(RNE, x, y, nz)],
+                 'fnma': [z3.fpFMA(RNE, nx, y, z), z3.fpFMA(RNE, x, ny, z)], 'fnms': [z3.fpFMA(RNE, nx, y, nz), z3.fpFMA(RNE, x, ny, nz)]}[op]
+        unf = {'fma': [z3.fpAdd(RNE, p, z)], 'fms': [z3.fpSub(RNE, p, z), z3.fpAdd(RNE, p, nz)],
+               'fnma': [z3.fpAdd(RNE, q, z) for q in np_] + [z3.fpSub(RNE, z, p)],
+               'fnms': [z3.fpSub(RNE, q, z) for q in np_] + [z3.fpAdd(RNE, q, nz) for q in np_]}[op]
+        return T, lambda r: z3.Or(*[feq(r, v) for v in fused + unf])
+    if op in ('min', 'max'):
+        pre = z3.And(z3.Not(z3.fpIsNaN(x)), z3.Not(z3.fpIsNaN(y)))
+        le = (lambda u, v: z3.fpLEQ(u, v)) if op == 'min' else (lambda u, v: z3.fpGEQ(u, v))
+        return pre, lambda r: z3.And(z3.Or(B_(r) == a, B_(r) == b), le(R(r), x), le(R(r), y))
+    if op == 'sign':
+        one = fpc(1.0, w)
+        want = z3.If(z3.fpIsNaN(x), x, z3.If(z3.fpGT(x, fpc(0.0, w)), one, z3.If(z3.fpLT(x, fpc(0.0, w)), z3.fpNeg(one), fpc(0.0, w))))
+        return T, lambda r: z3.If(z3.fpIsNaN(x), z3.fpIsNaN(R(r)), z3.fpEQ(R(r), want))
+    if op == 'signnz':
+        pre = z3.And(z3.Not(z3.fpIsNaN(x)), z3.Not(z3.fpIsZero(x)))
+        one = z3.BitVecVal(0x3f800000 if w == 32 else 0x3ff0000000000000, w)
+        return pre, lambda r: B_(r)  == (one | (a & sb))
+    if op == 'nextafter':
+        nan = z3.Or(z3.fpIsNaN(x), z3.fpIsNaN(y))
+        up = z3.fpLT(x, y)
+        # successor / predecessor on the ordered bit pattern
+        step_away = a + 1; step_toward0 = a - 1
+        pos = z3.Not(z3.fpIsNegative(x))
+        moved = z3.If(z3.fpIsZero(x), z3.If(up, z3.BitVecVal(1, w), sb | 1), z3.If(up == pos, step_away, step_toward0))
+        return T, lambda r: z3.If(nan, z3.fpIsNaN(R(r)), z3.If(z3.fpEQ(x, y), z3.fpEQ(R(r), y), B_(r) == moved))
+    if op == 'ldexp':
+        e = b        # signed integer of width w
+        lim = 400 if w == 32 else 3000
+        ec = z3.If(e > lim, z3.BitVecVal(lim, w), z3.If(e < -lim, z3.BitVecVal(-lim, w), e))
+        xw = z3.fpFPToFP(RNE, x, WIDE(w))
+        prod = z3.fpMul(RNE, xw, pow2_wide(ec, w))        # exact: significand of x times a power of two inside the wide range
+        want = z3.fpFPToFP(RNE, prod, S)                  # one rounding
+        return T, lambda r: feq(r, want)
+    raise KeyError(op)
+
+
+def frexp_spec(w, a, m, e):
+    """m, e: result bit patterns (mantissa FP bits, exponent as signed int of width w) -> BoolRef"""
+    x = fpv(a, w); M = fpv(m, w)
+    fin = z3.And(z3.Not(z3.fpIsNaN(x)), z3.Not(z3.fpIsInf(x)), z3.Not(z3.fpIsZero(x)))
+    lim = 400 if w == 32 else 3000
+    inr = z3.And(e >= -lim, e <= lim)
+    prod = z3.fpMul(RNE, z3.fpFPToFP(RNE, M, WIDE(w)), pow2_wide(e, w))
+    am = z3.fpAbs(M)
+    ok_fin = z3.And(inr, prod == z3.fpFPToFP(RNE, x, WIDE(w)), z3.fpGEQ(am, fpc(0.5, w)), z3.fpLT(am, fpc(1.0, w)))
+    ok_zero = z3.And(m == a, e == 0)
+    ok_special = z3.If(z3.fpIsNaN(x), z3.fpIsNaN(M), m == a)     # +-inf / NaN -> itself (exponent unspecified, as in C)
+    return z3.If(fin, ok_fin, z3.If(z3.fpIsZero(x), ok_zero, ok_special))
+
+
+ROUND_MODES = {'ceil': z3.RTP(), 'floor': z3.RTN(), 'trunc': z3.RTZ(), 'round': z3.RNA(), 'nearbyint': z3.RNE(), 'rint': z3.RNE()}
+
+
+def round_spec(op, w, a):
+    x = fpv(a, w)
+    want = z3.fpRoundToIntegral(ROUND_MODES[op], x)
+    return T, lambda r: z3.If(z3.fpIsNaN(x), z3.fpIsNaN(RF(r, w)), z3.fpEQ(RF(r, w), want))
+
+
+def fp_to_int_spec(op, w, a, signed=True, dw=None):
+    """nearbyint_as_int / to_int: exact integer whenever it fits the destination"""
+    dw = dw or w
+    x = fpv(a, w)
+    mode = z3.RNE() if op == 'nearbyint_as_int' else z3.RTZ()
+    rx = z3.fpRoundToIntegral(mode, x)
+    S = FS(w)
+    if signed:
+        lo = z3.fpSignedToFP(RNE, z3.BitVecVal(1 << (dw - 1), dw), S)          # -2^(dw-1)
+        fits = z3.And(z3.Not(z3.fpIsNaN(x)), z3.fpGEQ(rx, lo), z3.fpLT(rx, z3.fpNeg(lo)))
+        return fits, lambda r: RB(r, dw) == z3.fpToSBV(mode, x, z3.BitVecSort(dw))
+    hi = z3.fpMul(RNE, z3.fpUnsignedToFP(RNE, z3.BitVecVal(1 << (dw - 1), dw), S), z3.FPVal(2.0, S))
+    fits = z3.And(z3.Not(z3.fpIsNaN(x)), z3.fpGEQ(rx, z3.FPVal(0.0, S)), z3.fpLT(rx, hi))
+    return fits, lambda r: RB(r, dw) == z3.fpToUBV(mode, x, z3.BitVecSort(dw))
